@@ -395,7 +395,11 @@ class Body:
             if el == "deref":
                 e = simp_deref(e)
             elif "f" in el:
-                e = simp_field(e, el["name"])
+                nm = el["name"]
+                if "." in nm or nm.startswith("*"):
+                    # closure capture such as `**self.buffered_vector`: the captured place's last field
+                    nm = nm.lstrip("*&").split(".")[-1]
+                e = simp_field(e, nm)
             elif "dc" in el:
                 e = ("downcast", e, el["dc"])
             elif "idx" in el:
